@@ -197,10 +197,54 @@ def _check(prop, tier, T, wd, t0):
         if not st["witness"]:
             raise dv.ToolError("the model with all listed deviations does not violate %s" % mon)
         probes.append((mon, st["witness"][0]))
-    cases = [{"id": "wit-" + mon, "qcap": 2, "bufcap": c0["buf"], "steps": s + epilogue(W3)} for mon, s in probes]
-    tp, _, _ = run_harness(wd, cases, "probe")
-    res, _ = judge(wd, tp, 2, c0["buf"], "probe", AS_IMPL)
-    pr = {j["id"]: j for j in res}
+    witnesses = [(mon, c0, s) for mon, s in probes]
+    # 3. schedules
+    groups = {(2, 1): [], (2, 2): []}
+    for mon, c, s in witnesses:
+        groups[(2, c["buf"])].append(("wit-" + mon, s, W3))
+    cfg = write_cfg(os.path.join(wd, "sim.cfg"), W3, "MC_TargetsAny", "MC_OpsSmall", 2, 1,
+                    T["sim"]["depth"], 1, 2, AS_IMPL, T["sim"]["depth"], ["Emit"], view=False)
+    scheds, sim_secs = dv.tlc_simulate("MC_watch", cfg, wd, T["sim"]["num"], T["sim"]["depth"] + 1,
+                                       dv.seed(), timeout=T["timeout"])
+    phases["simulate"] = round(sim_secs, 1)
+    for i, s in enumerate(scheds):
+        groups[(2, 1 + i % 2)].append(("sim-%d" % i, s, W3))
+    for buf in (1, 2):
+        for i in range(T["rnd"] // 2):
+            groups[(2, buf)].append(("rnd%d-%d" % (buf, i), random_schedule(rng, T["rnd_len"]), W3))
+
+    # 4. real code
+    traces = {}
+    by_id = {}
+    div0 = []
+    for (qcap, buf), items in groups.items():
+        cases = [{"id": cid, "qcap": qcap, "bufcap": buf, "steps": s + epilogue(ws)} for cid, s, ws in items]
+        tag = "q%db%d" % (qcap, buf)
+        tp, recs, hsecs = run_harness(wd, cases, tag)
+        phases["harness-" + tag] = round(hsecs, 1)
+        traces[(qcap, buf)] = (tp, len(cases), tag)
+        for r in recs:
+            by_id[r["id"]] = dict(qcap=qcap, bufcap=buf, steps=r["steps"], obs=r["obs"])
+            if r.get("errors"):
+                bad = [e for e in r["errors"] if e["what"] != "panic"]
+                if bad:
+                    raise dv.ToolError("harness step failed in %s: %s" % (r["id"], bad[:3]))
+                div0.append({"id": r["id"], "what": "panic in the code under test: " + r.get("panic", "")})
+
+    # 5. judge (TLC).  First against the model with every listed deviation; the witnesses tell which of the
+    #    deviations the current tree shows; if some are gone, the model without them is the one bound to the code.
+    def judge_all(dv_set):
+        out = []
+        for (qcap, buf), (tp, n, tag) in traces.items():
+            res, jsecs = judge(wd, tp, qcap, buf, tag, dv_set)
+            phases["judge-" + tag] = round(jsecs, 1)
+            if len(res) != n:
+                raise dv.ToolError("judge returned %d results for %d behaviours" % (len(res), n))
+            out += res
+        return out
+
+    results = judge_all(AS_IMPL)
+    pr = {j["id"]: j for j in results if j["id"].startswith("wit-")}
     dev = []
     if any(v["m"] == "NoSilentGap" and v["cause"] == "broadcast-lagged" for v in pr["wit-NoSilentGap"]["viol"]):
         dev.append("LaggedWatchEventsDropped")
@@ -209,7 +253,9 @@ def _check(prop, tier, T, wd, t0):
     for d in AS_IMPL:
         if d not in dev:
             print("NOTE property=%s listed deviation %s is not shown by the current tree any more" % (prop, d))
-    witnesses = [(mon, c0, s) for mon, s in probes]
+    if dev != AS_IMPL:
+        results = judge_all(dev)
+
     for c in T["mc"]:
         # 1. repaired design (the largest configuration is only run for the model bound to the code)
         if c.get("design", True) or not dev:
@@ -233,70 +279,38 @@ def _check(prop, tier, T, wd, t0):
         states += st["distinct"]
         transitions += st["generated"]
 
-    # 3. schedules
-    groups = {(2, 1): [], (2, 2): []}
-    for mon, c, s in witnesses:
-        groups[(2, c["buf"])].append(("wit-" + mon, s, W3))
-    cfg = write_cfg(os.path.join(wd, "sim.cfg"), W3, "MC_TargetsAny", "MC_OpsSmall", 2, 1,
-                    T["sim"]["depth"], 1, 2, AS_IMPL, T["sim"]["depth"], ["Emit"], view=False)
-    scheds, sim_secs = dv.tlc_simulate("MC_watch", cfg, wd, T["sim"]["num"], T["sim"]["depth"] + 1,
-                                       dv.seed(), timeout=T["timeout"])
-    phases["simulate"] = round(sim_secs, 1)
-    for i, s in enumerate(scheds):
-        groups[(2, 1 + i % 2)].append(("sim-%d" % i, s, W3))
-    for buf in (1, 2):
-        for i in range(T["rnd"] // 2):
-            groups[(2, buf)].append(("rnd%d-%d" % (buf, i), random_schedule(rng, T["rnd_len"]), W3))
 
-    # 4+5. real code, judge
-    viol, div, observations = [], [], []
+    viol, div, observations = [], list(div0), []
     total = 0
     nontrivial = set()
     samples = []
-    by_id = {}
     counts = dict(lagged=0, cancelled=0, delivered_events=0, witness=len(witnesses), simulated=0, random=0)
-    for (qcap, buf), items in groups.items():
-        cases = [{"id": cid, "qcap": qcap, "bufcap": buf, "steps": s + epilogue(ws)} for cid, s, ws in items]
-        tag = "q%db%d" % (qcap, buf)
-        tp, recs, hsecs = run_harness(wd, cases, tag)
-        phases["harness-" + tag] = round(hsecs, 1)
-        for r in recs:
-            by_id[r["id"]] = dict(qcap=qcap, bufcap=buf, steps=r["steps"], obs=r["obs"])
-            if r.get("errors"):
-                bad = [e for e in r["errors"] if e["what"] != "panic"]
-                if bad:
-                    raise dv.ToolError("harness step failed in %s: %s" % (r["id"], bad[:3]))
-                div.append({"id": r["id"], "what": "panic in the code under test: " + r.get("panic", "")})
-        res, jsecs = judge(wd, tp, qcap, buf, tag, dev)
-        phases["judge-" + tag] = round(jsecs, 1)
-        if len(res) != len(cases):
-            raise dv.ToolError("judge returned %d results for %d behaviours" % (len(res), len(cases)))
-        for j in res:
-            total += 1
-            for v in j["viol"]:
-                viol.append(v)
-            if j["div"]:
-                div.append({"id": j["id"], "what": "delivered sequences differ from the model's", "watchers": j["div"]})
-            if j["progress"]:
-                observations.append({"id": j["id"], "watchers": j["progress"]})
-            if not j["quiescent"]:
-                raise dv.ToolError("epilogue did not drain behaviour " + j["id"])
-            nd = sum(j["delivered"].values()) if isinstance(j["delivered"], dict) else 0
-            counts["delivered_events"] += nd
-            counts["lagged"] += 1 if j["lagged"] else 0
-            counts["cancelled"] += 1 if j["cancelled"] else 0
-            counts["model_cancelled"] = counts.get("model_cancelled", 0) + (1 if j["mcancelled"] else 0)
-            if j["id"].startswith("sim"):
-                counts["simulated"] += 1
-            elif j["id"].startswith("rnd"):
-                counts["random"] += 1
-            if nd >= 2 and (j["lagged"] or j["cancelled"] or nd >= 4):
-                nontrivial.add(json.dumps(by_id[j["id"]]["steps"], sort_keys=True))
-                if len(samples) < 3 and (j["lagged"] or j["cancelled"]):
-                    b = by_id[j["id"]]
-                    samples.append({"id": j["id"], "bufcap": b["bufcap"], "lagged": j["lagged"],
-                                    "cancelled": j["cancelled"], "received": b["obs"],
-                                    "schedule": [x["a"] + (":" + x["w"] if "w" in x else "") for x in b["steps"][:30]]})
+    for j in results:
+        total += 1
+        for v in j["viol"]:
+            viol.append(v)
+        if j["div"]:
+            div.append({"id": j["id"], "what": "delivered sequences differ from the model's", "watchers": j["div"]})
+        if j["progress"]:
+            observations.append({"id": j["id"], "watchers": j["progress"]})
+        if not j["quiescent"]:
+            raise dv.ToolError("epilogue did not drain behaviour " + j["id"])
+        nd = sum(j["delivered"].values()) if isinstance(j["delivered"], dict) else 0
+        counts["delivered_events"] += nd
+        counts["lagged"] += 1 if j["lagged"] else 0
+        counts["cancelled"] += 1 if j["cancelled"] else 0
+        counts["model_cancelled"] = counts.get("model_cancelled", 0) + (1 if j["mcancelled"] else 0)
+        if j["id"].startswith("sim"):
+            counts["simulated"] += 1
+        elif j["id"].startswith("rnd"):
+            counts["random"] += 1
+        if nd >= 2 and (j["lagged"] or j["cancelled"] or nd >= 4):
+            nontrivial.add(json.dumps(by_id[j["id"]]["steps"], sort_keys=True))
+            if len(samples) < 3 and (j["lagged"] or j["cancelled"]):
+                b = by_id[j["id"]]
+                samples.append({"id": j["id"], "bufcap": b["bufcap"], "lagged": j["lagged"],
+                                "cancelled": j["cancelled"], "received": b["obs"],
+                                "schedule": [x["a"] + (":" + x["w"] if "w" in x else "") for x in b["steps"][:30]]})
 
     known = dv.load_known() + dv.load_known_part("watch")
     known_hits, new = dv.classify(prop, viol, known=known)
